@@ -717,29 +717,53 @@ class MM:
         raise KeyError(name)
 
     def our_types_in_order(self) -> List[Union[Class, Enum, ConstrainedPrimitive]]:
+        """Our types in declaration order; types not mentioned in ``order`` (and duplicates) come last."""
         items: List[Any] = list(self.enums) + list(self.constrained_primitives) + list(self.classes)
         if self.order is None:
             return items
-        by_name = {x.name: x for x in items}
-        out = [by_name[n] for n in self.order if n in by_name]
-        seen = {x.name for x in out}
-        out.extend(x for x in items if x.name not in seen)
-        return out
+        rank = {n: i for i, n in reversed(list(enumerate(self.order)))}
+        first_seen: set = set()
+        keyed = []
+        for pos, x in enumerate(items):
+            if x.name in rank and x.name not in first_seen:
+                first_seen.add(x.name)
+                keyed.append((0, rank[x.name], pos, x))
+            else:
+                keyed.append((1, pos, pos, x))
+        keyed.sort(key=lambda k: k[:3])
+        return [k[3] for k in keyed]
 
 
 # =========================================================================== structure helpers
 
 
+def _find_class(mm: MM, name: str) -> Optional[Class]:
+    for c in mm.classes:
+        if c.name == name:
+            return c
+    return None
+
+
 def ancestors(mm: MM, cls_name: str) -> List[str]:
-    """All proper ancestors of a class (no duplicates), parents before the class, deterministic."""
+    """
+    All proper ancestors of a class (no duplicates), parents before children, deterministic.
+    Robust against broken models (mutants): unknown bases are skipped, cycles are cut.
+    """
     out: List[str] = []
+    visiting: set = set()
 
     def visit(n: str) -> None:
-        c = mm.cls(n)
+        c = _find_class(mm, n)
+        if c is None or n in visiting:
+            return
+        visiting.add(n)
         for b in c.bases:
+            if _find_class(mm, b) is None:
+                continue
             visit(b)
-            if b not in out:
+            if b not in out and b != cls_name:
                 out.append(b)
+        visiting.discard(n)
 
     visit(cls_name)
     return out
@@ -754,17 +778,22 @@ def concrete_descendants(mm: MM, cls_name: str) -> List[str]:
     return [n for n in descendants(mm, cls_name) if not mm.cls(n).abstract]
 
 
-def all_props(mm: MM, cls_name: str) -> List[Tuple[Prop, str]]:
+def all_props(mm: MM, cls_name: str, _visiting: Optional[frozenset] = None) -> List[Tuple[Prop, str]]:
     """
     Stacked properties of a class as ``(prop, declaring_class_name)`` in the order the
     intermediate layer produces: for each base in order its stacked properties (duplicates
-    from diamonds dropped), then the class's own.
+    from diamonds dropped), then the class's own.  Unknown bases are skipped, cycles are cut.
     """
-    c = mm.cls(cls_name)
+    c = _find_class(mm, cls_name)
+    if c is None:
+        return []
+    visiting = (_visiting or frozenset()) | {cls_name}
     out: List[Tuple[Prop, str]] = []
     seen = set()
     for b in c.bases:
-        for p, owner in all_props(mm, b):
+        if b in visiting:
+            continue
+        for p, owner in all_props(mm, b, visiting):
             if (p.name, owner) not in seen:
                 seen.add((p.name, owner))
                 out.append((p, owner))
@@ -772,15 +801,19 @@ def all_props(mm: MM, cls_name: str) -> List[Tuple[Prop, str]]:
     return out
 
 
-def all_invariants(mm: MM, name: str) -> List[Tuple[Invariant, str]]:
+def all_invariants(mm: MM, name: str, _visiting: Optional[frozenset] = None) -> List[Tuple[Invariant, str]]:
     """Stacked invariants ``(invariant, declaring_type_name)`` of a class or constrained primitive."""
     t = mm.find(name)
-    assert isinstance(t, (Class, ConstrainedPrimitive)), name
+    if not isinstance(t, (Class, ConstrainedPrimitive)):
+        return []
+    visiting = (_visiting or frozenset()) | {name}
     out: List[Tuple[Invariant, str]] = []
     seen = set()
     for b in t.bases:
-        for inv, owner in all_invariants(mm, b):
-            if (id(inv)) not in seen:
+        if b in visiting:
+            continue
+        for inv, owner in all_invariants(mm, b, visiting):
+            if id(inv) not in seen:
                 seen.add(id(inv))
                 out.append((inv, owner))
     out.extend((inv, name) for inv in t.invariants)
@@ -805,7 +838,9 @@ def default_ctor(mm: MM, cls_name: str, keyword_super_args: bool = False) -> Opt
     args = [Arg(p.name, p.type) for p in required] + [Arg(p.name, p.type, "None") for p in optional]
     super_calls: List[Tuple[str, List[str], List[Tuple[str, str]]]] = []
     for b in c.bases:
-        base_cls = mm.cls(b)
+        base_cls = _find_class(mm, b)
+        if base_cls is None or b == cls_name or cls_name in ancestors(mm, b):
+            continue
         base_ctor = base_cls.ctor if base_cls.ctor is not None else default_ctor(mm, b)
         if base_ctor is None:
             continue
